@@ -5,6 +5,6 @@ CONSTANTS
   Top = 2
   MaxBatch = 2
   Variant = "code"
-INVARIANTS TypeOK Lemma
+INVARIANTS TypeOK
 PROPERTIES BatchInvisible
 CHECK_DEADLOCK FALSE
